@@ -2,7 +2,7 @@ CONSTANT Threads = {1, 2}
 CONSTANT BITS = 1
 CONSTANT LW = 1
 CONSTANT MaxN = 8
-CONSTANT ProgSpace <- PR
+CONSTANT ProgSpace <- PRt
 SPECIFICATION Spec
 INVARIANT PcOK WellFormed RootConsistent NoLostElement NothingInvented FirstConsistent SnapshotEven Final
 PROPERTY Monotone
